@@ -2253,6 +2253,10 @@ coap_block_new_lg_crcv(coap_session_t *session, coap_pdu_t *pdu,
   }
   lg_crcv->pdu.token += lg_crcv->pdu.max_hdr_size;
   memcpy(lg_crcv->pdu.token, pdu->token, token_options);
+  /* The copied actual_token must not point into the (soon deleted) original PDU */
+  lg_crcv->pdu.actual_token.s = lg_crcv->pdu.token + pdu->e_token_length -
+                                pdu->actual_token.length;
+  lg_crcv->pdu.actual_token.length = pdu->actual_token.length;
   if (lg_crcv->pdu.data) {
     lg_crcv->pdu.data = lg_crcv->pdu.token + token_options;
     assert(pdu->data);
